@@ -283,6 +283,7 @@ def run_property(prop, tier, only=None, write_evidence=True):
     fuzz_results = run_fuzz_all(units, plan, tier, seed)
 
     known = load_known()
+    tried_candidates = {}
     violations, known_hits, undecided, errors = [], [], [], []
     for u in units:
         fr = fuzz_results.get(u.name)
@@ -310,7 +311,10 @@ def run_property(prop, tier, only=None, write_evidence=True):
         if u.status == "undecided":
             for ob in u.undecided:
                 # a model of the ground instances is a CANDIDATE input: replay it natively, the real code decides
-                if u.kind == "function" and "[ground-instance-model-exists]" in str(ob.info.get("reason", "")):
+                # (tried for every undecided obligation of a function unit: whether the worker saw a ground-instance model
+                # depends on its time budget under load)
+                if u.kind in ("function", "c-function") and len(tried_candidates) < 6 and not tried_candidates.get(ob.name):
+                    tried_candidates[ob.name] = True
                     try:
                         m = candidate_model(ob)
                         if m is not None:
